@@ -9,7 +9,12 @@
                   CaseR (a..b) | Default | Break | Continue | Goto (a = label
                   name) | GotoStar (a = index into the label table) |
                   Label (a = name) | Expr
-     expressions  T | F (marks that yield 1 / 0) | Not | And | Or | Cond |
+     expressions  T | F (marks that yield 1 / 0; a = the SHAPE of the operand: 0 an
+                  rvalue call T(i), 1 a dereference *TP(i), 2 a member TS(i)->m,
+                  3 a subscript tv[MX(i, v)], 4 a member of a call result TV(i).m -
+                  the same single mark and the same value in every shape) |
+                  Not | And | Or | Cond | Elvis (GNU `a ?: b`: a is evaluated ONCE;
+                  if it is nonzero it is the value, else b is evaluated) |
                   Comma | SE (statement expression: one statement, then the
                   value expression) | CntLt (a = k: own counter++ < k, only as
                   the condition of an if: makes backward gotos terminate)
@@ -58,16 +63,17 @@ CONSTANTS MaxN,       \* nodes per program
           CaseVals,   \* case label values (CaseR uses lo < hi from this set)
           NLab,       \* label names 1..NLab
           Fuel,       \* Level A step bound (programs that need more are discarded)
+          Shapes,     \* operand shapes of the T / F leaves, subset of 0..4
           ForLate,    \* TRUE: stmt() sets brk/cont_label of a `for` only after its three clauses (repaired tree);
                       \* FALSE: before them (pinned: a break in a clause binds to the for itself) - must be rejected
-          Variant,    \* "do-restore-late" | "ok" | "norestore-cont" | "norestore-brk" | "norestore-sw" | "and-or-mixup" | "default-first" | "range-open"
+          Variant,    \* "do-restore-late" | "elvis-reeval" | "ok" | "norestore-cont" | "norestore-brk" | "norestore-sw" | "and-or-mixup" | "default-first" | "range-open"
           Emit
 
 Loops == {"While", "Do", "For"}
 ELoops == {"WhileE", "DoE", "ForE"}
 StmtKinds == {"Mark", "Seq", "If", "IfElse", "While", "Do", "For", "Switch", "Case", "CaseR", "Default",
               "Break", "Continue", "Goto", "GotoStar", "Label", "Expr", "WhileE", "DoE", "ForE", "SwitchE"}
-ExprKinds == {"T", "F", "Not", "And", "Or", "Cond", "Comma", "SE", "CntLt"}
+ExprKinds == {"T", "F", "Not", "And", "Or", "Cond", "Elvis", "Comma", "SE", "CntLt"}
 
 Node(k, a, b, par, pos, d) == [k |-> k, a |-> a, b |-> b, par |-> par, pos |-> pos, kids |-> <<>>, d |-> d]
 
@@ -79,7 +85,7 @@ ChildTypes(k, a) ==
     [] k \in {"While", "Do", "For", "Switch", "Case", "CaseR", "Default", "Label"} -> <<"s">>
     [] k = "Expr"   -> <<"e">>
     [] k = "Not"    -> <<"e">>
-    [] k \in {"And", "Or", "Comma"} -> <<"e", "e">>
+    [] k \in {"And", "Or", "Comma", "Elvis"} -> <<"e", "e">>
     [] k = "Cond"   -> <<"e", "e", "e">>
     [] k = "SE"     -> <<"s", "e">>
     [] k = "WhileE" -> <<"c", "s">>
@@ -134,6 +140,7 @@ FramesUnder(P, p, j) ==
     [] k = "And"    -> IF j = 1 THEN <<Fr("and", p, 0)>> ELSE <<Fr("bool", p, 0)>>
     [] k = "Or"     -> IF j = 1 THEN <<Fr("or", p, 0)>> ELSE <<Fr("bool", p, 0)>>
     [] k = "Cond"   -> IF j = 1 THEN <<Fr("cnd", p, 0)>> ELSE <<>>
+    [] k = "Elvis"  -> IF j = 1 THEN <<Fr("elv", p, 0)>> ELSE <<>>
     [] k \in {"Comma", "SE"} -> IF j = 1 THEN <<X(P[p].kids[2])>> ELSE <<>>
     [] OTHER        -> <<>>
 
@@ -196,6 +203,7 @@ StepA(P, s) ==
            [] nd.k = "And"    -> [s EXCEPT !.st = r \o <<Fr("and", i, 0), X(kid(1))>>]
            [] nd.k = "Or"     -> [s EXCEPT !.st = r \o <<Fr("or", i, 0), X(kid(1))>>]
            [] nd.k = "Cond"   -> [s EXCEPT !.st = r \o <<Fr("cnd", i, 0), X(kid(1))>>]
+           [] nd.k = "Elvis"  -> [s EXCEPT !.st = r \o <<Fr("elv", i, 0), X(kid(1))>>]
            [] nd.k \in {"Comma", "SE"} -> [s EXCEPT !.st = r \o <<X(kid(2)), X(kid(1))>>])
     [] f.t = "seq"  -> IF f.j <= nd.a THEN [s EXCEPT !.st = r \o <<Fr("seq", i, f.j + 1), X(kid(f.j))>>]
                        ELSE [s EXCEPT !.st = r]
@@ -243,6 +251,8 @@ StepA(P, s) ==
     [] f.t = "or"   -> IF s.acc # 0 THEN [s EXCEPT !.st = r, !.acc = 1]
                        ELSE [s EXCEPT !.st = r \o <<Fr("bool", i, 0), X(kid(2))>>]
     [] f.t = "cnd"  -> [s EXCEPT !.st = Append(r, X(IF s.acc # 0 THEN kid(2) ELSE kid(3)))]
+    (* a ?: b - the value of a, if nonzero, IS the result: a is not evaluated again *)
+    [] f.t = "elv"  -> IF s.acc # 0 THEN [s EXCEPT !.st = r] ELSE [s EXCEPT !.st = Append(r, X(kid(2)))]
 
 (* Fuel steps, in chunks of 10 so that a halted machine costs next to nothing *)
 Ten == <<1, 2, 3, 4, 5, 6, 7, 8, 9, 10>>
@@ -286,6 +296,8 @@ Enter(P, L0, i) ==
   CASE k = "Mark" -> Emit1(L, <<Op("mark", i, -1, NoL, 0)>>)
     [] k \in {"Seq", "Expr", "Not", "Comma", "SE"} -> push(L, LF(i, 1, 0))
     [] k \in {"If", "IfElse", "And", "Or", "Cond"} -> push([L EXCEPT !.ct = @ + 1], LF(i, 1, L.ct))
+    (* conditional(): `a ?: b` becomes `tmp = a, tmp ? tmp : b`; ph = where the code of a begins *)
+    [] k = "Elvis" -> push(L, [LF(i, 1, 0) EXCEPT !.ph = Len(L.code) + 1])
     [] k \in Loops ->
          LET b == U(L.uq)  c == U(L.uq + 1)  n == L.ct
              f == [LF(i, 1, n) EXCEPT !.brk = L.brk, !.cont = L.cont]     \* char *brk = brk_label; char *cont = cont_label;
@@ -363,6 +375,20 @@ After(P, L) ==
                    IF f.j = 1 THEN e(<<Jz(<<"else", c>>)>>)
                    ELSE IF f.j = 2 THEN e(<<Jmp(<<"end", c>>, 0), Lbl(<<"else", c>>)>>)
                    ELSE e(<<Lbl(<<"end", c>>)>>)
+    (* ND_COMMA(ND_ASSIGN(tmp, a), ND_COND(tmp, tmp, b)): count() is called when the ND_COND is generated, i.e. after a.
+       Variant "elvis-reeval": no temporary when the top node of a is ND_DEREF / ND_MEMBER (operand shapes 1..4) -
+       the operand subtree is used as the condition AND as the then-arm, so its code is emitted twice. *)
+    [] k = "Elvis" ->
+         IF f.j = 1
+         THEN LET c2  == L.ct
+                  seg == SubSeq(L.code, f.ph, Len(L.code))
+                  top == P[nd.kids[1]]
+                  ops == IF Variant = "elvis-reeval" /\ top.k \in {"T", "F"} /\ top.a # 0
+                         THEN <<Jz(<<"else", c2>>)>> \o seg \o <<Jmp(<<"end", c2>>, 0), Lbl(<<"else", c2>>)>>
+                         ELSE <<Op("settmp", i, 0, NoL, 0), Op("gettmp", i, 0, NoL, 0), Jz(<<"else", c2>>),
+                                Op("gettmp", i, 0, NoL, 0), Jmp(<<"end", c2>>, 0), Lbl(<<"else", c2>>)>>
+              IN [e(ops) EXCEPT !.ct = @ + 1, !.fr = Append(rest, [f EXCEPT !.j = 2, !.c = c2])]
+         ELSE e(<<Lbl(<<"end", c>>)>>)
     [] k = "And" -> IF f.j = 1 THEN e(<<Jz(<<"false", c>>)>>)
                     ELSE e(<<Jz(<<"false", c>>), SetA(1), Jmp(<<"end", c>>, 0), Lbl(<<"false", c>>), SetA(0), Lbl(<<"end", c>>)>>)
     [] k = "Or"  -> IF f.j = 1 THEN e(<<IF Variant = "and-or-mixup" THEN Jz(<<"true", c>>) ELSE Jnz(<<"true", c>>)>>)
@@ -452,6 +478,8 @@ StepI(C, m) ==
     [] o.op = "inc"    -> [nx EXCEPT !.cnt[o.a] = @ + 1]
     [] o.op = "cntlt"  -> [nx EXCEPT !.acc = IF m.cnt[o.a] < o.b THEN 1 ELSE 0, !.cnt[o.a] = @ + 1]
     [] o.op = "cmpcnt" -> [nx EXCEPT !.acc = IF m.cnt[o.a] < o.b THEN 1 ELSE 0]
+    [] o.op = "settmp" -> [nx EXCEPT !.cnt[o.a] = m.acc]          \* the unnamed local of `a ?: b`
+    [] o.op = "gettmp" -> [nx EXCEPT !.acc = m.cnt[o.a]]
     [] OTHER           -> [m EXCEPT !.halt = TRUE, !.out = Append(@, -3)]     \* unpatched dispatch etc.
 
 RunI(P, C) == FoldLeft(LAMBDA m, u : IF m.halt THEN m ELSE FoldLeft(LAMBDA m2, u2 : StepI(C, m2), m, Ten),
@@ -496,7 +524,8 @@ Cands(t, p, q) ==
              \cup { <<k, n, 0>> : k \in K({"Goto", "GotoStar"}), n \in 1..NLab }
              \cup { <<"Label", n, 0>> : n \in IF "Label" \in Kinds /\ ~InSE(p)
                                               THEN {x \in 1..NLab : \A j \in DOMAIN prog : ~(prog[j].k = "Label" /\ prog[j].a = x)} ELSE {} }
-      exp == { <<k, 0, 0>> : k \in K({"T", "F", "Not", "And", "Or", "Cond", "Comma", "SE"}) }
+      exp == { <<k, 0, 0>> : k \in K({"Not", "And", "Or", "Cond", "Elvis", "Comma", "SE"}) }
+             \cup { <<k, sh, 0>> : k \in K({"T", "F"}), sh \in Shapes }
   IN IF t = "s" THEN stm
      ELSE IF t = "e" THEN exp
      ELSE exp \cup { <<"CntLt", a, 0>> : a \in IF "CntLt" \in Kinds THEN {1, 2} ELSE {} }
